@@ -133,18 +133,23 @@ class C13(Check):
         # kills aimed at the events at which the child holds the lock (known from the dry run), with the two specialised
         # contenders: one blocked inside flock(), one polling as fast as it can - the window in which survivors can be
         # handed the lock on an inode that somebody else is about to replace
+        def waiter_cases():
+            # one live waiter that is already polling with a long timeout when the holder dies
+            for rep in range(reps):
+                for s in ('plain', 'nested'):
+                    ns = list(range(1 + (seed + rep) % stride, K[s] + 1, stride))
+                    for i in range(0, len(ns), chunk):
+                        yield {'scen': s, 'ns': ns[i:i + chunk], 'cont': 'waiter', 'rep': rep}
         for rep in range(8 if tier == "quick" else 30):
             for s in ('plain', 'with', 'nested'):
                 hs = list(self.H.get(s, []))
                 rng.shuffle(hs)
                 for i in range(0, len(hs), chunk):
                     yield {'scen': s, 'ns': hs[i:i + chunk], 'cont': 2, 'rep': 100 + rep}
-        # one live waiter that is already polling with a long timeout when the holder dies
-        for rep in range(reps):
-            for s in ('plain', 'nested'):
-                ns = list(range(1 + (seed + rep) % stride, K[s] + 1, stride))
-                for i in range(0, len(ns), chunk):
-                    yield {'scen': s, 'ns': ns[i:i + chunk], 'cont': 'waiter', 'rep': rep}
+            if rep == 1:
+                # (after the second round of aimed kills rather than at the very end, so that a run truncated by its time
+                # budget on a busy machine still covers the waiter family)
+                yield from waiter_cases()
 
     # -- helpers ----------------------------------------------------------------
     def probe_both(self, path, res, what):
